@@ -32,6 +32,7 @@ CONSTANTS MaxCols, MaxCMax, MaxPad, MaxRatio, MaxMinW, MaxSlack,
           WideToo,                                 \* content minimum 2 (a double-width character) is part of the domain
           MaxW, MaxMaxW, NoWrapToo, MaxTMin,      \* extensions of the domain (0 / FALSE = off)
           RatioNeedsExpand,                        \* ratios only on expanding tables (they are not read otherwise)
+          ZeroRatioToo,                            \* an explicit ratio of 0 is part of the domain (None -> 0 -> 1 -> ...)
           EmitMod                                  \* Emit prints the states whose checksum is 0 modulo EmitMod
 
 VARIABLES o, cols
@@ -58,7 +59,7 @@ BumpTMin   == On /\ o.tmin < MaxTMin /\ SetO("tmin", o.tmin + 1)
 BumpCMax   == \E j \in DOMAIN cols : On /\ cols[j].cmax < MaxCMax /\ SetC(j, "cmax", cols[j].cmax + 1)
 BumpCMin   == \E j \in DOMAIN cols : On /\ WideToo /\ cols[j].cmin < 2 /\ MaxCMax >= 2
                                      /\ cols' = [cols EXCEPT ![j].cmin = 2, ![j].cmax = Max2(@, 2)] /\ UNCHANGED o
-NextRatio(r) == IF r = -1 THEN 1 ELSE r + 1
+NextRatio(r) == IF r = -1 /\ ~ZeroRatioToo THEN 1 ELSE r + 1
 BumpRatio  == \E j \in DOMAIN cols : On /\ NextRatio(cols[j].ratio) <= MaxRatio /\ (RatioNeedsExpand => o.ex)
                                      /\ SetC(j, "ratio", NextRatio(cols[j].ratio))
 BumpMinW   == \E j \in DOMAIN cols : On /\ cols[j].minw < MaxMinW /\ (\A k \in DOMAIN cols : k # j => cols[k].minw = 0)
